@@ -119,6 +119,28 @@ def r03_1(ctx, rr):
     txt = " ".join(W)
     rr.instances += 1
     rr.check(re.search(r"<|>", txt) is not None and len(W) >= 1, "From<A>:prescan", "From<A> for EliasFano must reject non-monotone input before push_unchecked (no diverging order test found)", b.span, {"tests": W})
+    # the order test covers every consecutive pair: accepted idioms are
+    #   (A) for &v in values { if v < prev { panic }; ..; prev = v }   (B) values.windows(2) with w[1] < w[0] => panic
+    idiom = None
+    for n in walk(b.body):
+        if n.get("k") == "Match" and n.get("src") == "ForLoopDesugar":
+            it = n["e"]["args"][0] if n["e"].get("k") == "Call" and n["e"].get("args") else n["e"]
+            chain = [c[0] for c in method_chain(F, it)]
+            body_txt = None
+            tests = [x for x in walk(n) if x.get("k") == "If" and diverges(F, x["th"]) and not is_debug_only(F, x) and x["c"].get("k") == "Binary" and x["c"]["op"] in ("<", ">")]
+            if not tests:
+                continue
+            if "windows" in chain:
+                idiom = "B"
+            elif all(c in ("iter", "copied", "cloned", "as_ref", "into_iter") for c in chain):
+                # (A): the compared `prev` local is assigned from the loop variable in the same body
+                c = tests[0]["c"]
+                ids = [x.get("id") for x in (c["l"], c["r"]) if x.get("k") == "Path" and x.get("res") == "local"]
+                asg = [x for x in walk(n) if x.get("k") == "Assign" and x["l"].get("k") == "Path" and x["l"].get("id") in ids and x["r"].get("k") == "Path" and x["r"].get("id") in ids]
+                if len(ids) == 2 and asg:
+                    idiom = "A"
+    rr.instances += 1
+    rr.check(idiom is not None, "From<A>:prescan-all-pairs", "From<A> for EliasFano must compare every consecutive pair of the input (a loop over all elements carrying the previous one, or windows(2)); chunked or strided scans let a descent between chunks through to push_unchecked", b.span)
     news = [n for n in walk(b.body) if callee_is(F, n, "EliasFanoBuilder::new")]
     rr.check(len(news) == 1, "From<A>:builder", "From<A> must create exactly one EliasFanoBuilder::new(len, max)", b.span)
 
